@@ -83,6 +83,9 @@ def gen_case(seed):
             op["offset"] = rnd.choice([0, 0, 1, cur // 2, max(0, cur - 1), cur, cur + 1, cur + 5 * b])
             op["read"] = rnd.choice(["all", "n", "iter"])
             op["n"] = max(1, rnd.choice([1, b - 1, b, b + 1, 3 * b, 4096]))
+            if rnd.random() < 0.45:
+                # other sessions download the same file while this one does
+                op["co"] = [{"offset": rnd.choice([0, 0, 1, cur // 2, max(0, cur - 1)]), "delay": rnd.choice([0.0, 0.0, 0.0004, 0.002, 0.01, 0.05]), "n": max(1, rnd.choice([1, b, b + 1, 4096]))} for _ in range(rnd.randint(1, 2))]
         op["chunk"] = max(1, rnd.choice([1, b // 2, b, b + 1, 3 * b, 1 << 20]))
         ops.append(op)
     case["ops"] = ops
@@ -156,7 +159,7 @@ def run_case(case):
     srv["users"] = users
     sc = {"seed": case["seed"], "server": srv, "net": net, "fs": {"delay": case.get("fs_delay"), "short_reads": case.get("short_reads", False), "tree": {"/d": None}, "backend": backend}}
     viol = []
-    info = {"transfers": 0, "bytes": 0, "observer_calls": 0}
+    info = {"transfers": 0, "bytes": 0, "observer_calls": 0, "co_readers": 0, "co_overlapped": 0}
     world = scenario.setup_world(sc, max_steps=3_000_000)
     if scratch:
         world.digest_masks = [scratch]
@@ -217,6 +220,24 @@ def _run_transfers(case, world, sc, net, b, ckw, viol, info, scratch):
                     if pth.name == pathlib.PurePosixPath(path).name and inf.get("size") != str(len(want)):
                         viol.append({"clause": "listing-size-differs", "subject": f"{where}:{raw}", "detail": f"{path}: {raw} size {inf.get('size')} != {len(want)}"})
 
+        co_clients = []
+
+        async def co_reader(c, path, spec, want, span):
+            await asyncio.sleep(spec["delay"])
+            o = spec["offset"]
+            got = bytearray()
+            t0 = world.loop.time()
+            async with c.download_stream(path, offset=o) as s:
+                async for blk in s.iter_by_block(spec["n"]):
+                    got += blk
+            info["transfers"] += 1
+            info["bytes"] += len(got)
+            info["co_readers"] += 1
+            if span[1] is None or t0 < span[1]:
+                info["co_overlapped"] += 1
+            if bytes(got) != want[o:]:
+                viol.append({"clause": "downloaded-bytes-differ", "subject": "retr:concurrent-readers", "detail": f"{path} from offset {o} while another session downloads the same file: got {len(got)} bytes, expected {len(want[o:])}; first difference at {_first_diff(bytes(got), want[o:])} (B={b})"})
+
         async def main():
             await server.start("127.0.0.1", 2121)
             c1 = mk_client(**ckw)
@@ -258,6 +279,16 @@ def _run_transfers(case, world, sc, net, b, ckw, viol, info, scratch):
                     off = op.get("offset", 0)
                     exp = want[off:]
                     got = bytearray()
+                    span = [None, None]
+                    co_tasks = []
+                    for ci, spec in enumerate(op.get("co") or ()):
+                        if ci >= len(co_clients):
+                            c = mk_client()
+                            await c.connect("127.0.0.1", 2121)
+                            await c.login()
+                            co_clients.append(c)
+                        co_tasks.append(world.spawn(co_reader(co_clients[ci], op["path"], spec, want, span), f"co{ci}"))
+                    span[0] = world.loop.time()
                     async with c1.download_stream(op["path"], offset=off) as stream:
                         if op["read"] == "all":
                             got += await stream.read()
@@ -270,6 +301,12 @@ def _run_transfers(case, world, sc, net, b, ckw, viol, info, scratch):
                         else:
                             async for blk in stream.iter_by_block(op["n"]):
                                 got += blk
+                    span[1] = world.loop.time()
+                    if co_tasks:
+                        await asyncio.wait(co_tasks, timeout=1e4)
+                        for t in co_tasks:
+                            if t.done() and not t.cancelled() and t.exception() is not None:
+                                raise t.exception()
                     info["transfers"] += 1
                     info["bytes"] += len(got)
                     if bytes(got) != exp:
@@ -279,6 +316,8 @@ def _run_transfers(case, world, sc, net, b, ckw, viol, info, scratch):
                 await asyncio.wait([obs_task], timeout=100)
             await c1.quit()
             await c2.quit()
+            for c in co_clients:
+                await c.quit()
             await asyncio.sleep(1)
             await asyncio.wait_for(server.close(), 1e4)
 
@@ -301,7 +340,7 @@ def _run_transfers(case, world, sc, net, b, ckw, viol, info, scratch):
             "events": world.net.seq,
             "steps": world.loop.steps,
             "outcome": world.outcome,
-            "counters": {"transfers": info["transfers"], "bytes_moved": info["bytes"], "probe.observer_calls_during_transfers": info["observer_calls"], "probe.short_reads": int(bool(case.get("short_reads"))), "probe.throttled": int(bool(case.get("throttle"))), "probe.restart_offset_ops": sum(1 for o in case["ops"] if o.get("offset"))},
+            "counters": {"transfers": info["transfers"], "bytes_moved": info["bytes"], "probe.observer_calls_during_transfers": info["observer_calls"], "probe.concurrent_readers_of_one_file": info["co_readers"], "probe.concurrent_readers_overlapping_in_time": info["co_overlapped"], "probe.short_reads": int(bool(case.get("short_reads"))), "probe.throttled": int(bool(case.get("throttle"))), "probe.restart_offset_ops": sum(1 for o in case["ops"] if o.get("offset"))},
             "groups": {"block_size": {str(b): 1}, "seg_mode": {net["seg_mode"]: 1}, "backend": {case.get("backend", "memory"): 1}},
             "violations": _dedupe(viol),
         }
@@ -490,7 +529,7 @@ def main(argv=None):
         print("not reproduced")
         return 0
     quick = a.tier == "quick"
-    ev = common.Evidence(PROP, a.tier, a.seed, "exploration", "seeded swarm: block size in {1,2,7,16,64,100,1000,8191,8192,8193,65536} x 1..4 transfers (STOR, APPE, REST+STOR, REST+APPE, RETR whole / from offset) x payload length around block multiples x content kind (ramp, position-stamped, CR/LF/NUL/IAC runs, random) x client write chunking / read pattern x EPSV/PASV x throttle level x network (segmentation incl. 1-byte dribble, latency, pipe capacity down to 1 byte) x backend latency / short reads x concurrent observer session; plus raw uploads whose data connection is reset; non-trivial = at least one transfer completed; distinct = distinct run digests")
+    ev = common.Evidence(PROP, a.tier, a.seed, "exploration", "seeded swarm: block size in {1,2,7,16,64,100,1000,8191,8192,8193,65536} x 1..4 transfers (STOR, APPE, REST+STOR, REST+APPE, RETR whole / from offset) x payload length around block multiples x content kind (ramp, position-stamped, CR/LF/NUL/IAC runs, random) x client write chunking / read pattern x EPSV/PASV x throttle level x network (segmentation incl. 1-byte dribble, latency, pipe capacity down to 1 byte) x backend latency / short reads x concurrent observer session x 0..2 further sessions downloading the same file during a RETR; plus raw uploads whose data connection is reset; non-trivial = at least one transfer completed; distinct = distinct run digests")
     rep = common.Reporter(PROP, ev)
     deadline = time.time() + (a.budget or (75 if quick else 1500))
     n = 2500 if quick else 300000
@@ -509,7 +548,7 @@ def main(argv=None):
         ev.extra["planned"] = n + n // 5
         ev.assumptions = [
             "REST+STOR/APPE on a missing file is backend-dependent (see C18) and is not generated",
-            "a second session downloads / stats / lists only after the completion reply; a third session stats and lists (never downloads) the same paths during the transfers",
+            "a second session downloads / stats / lists only after the completion reply; a third session stats and lists (never downloads) the same paths during the transfers; further sessions download a file only while another download of the same file (never an upload to it) is in progress",
             "backend content is read through a snapshot of the backend (MemoryPathIO state or the scratch directory), not through FTP",
         ]
         code = rep.finish(minimise=minimise, confirm=confirm)
